@@ -5,6 +5,7 @@ package main
 // from its own SSA on top of these.
 
 import (
+	"strings"
 	"fmt"
 	"math/big"
 )
@@ -547,6 +548,13 @@ func registerBig(e *Engine) {
 					return tuple{(*value)(nil), false}
 				}
 				*z = ratVal{num: bigVal{t: n}, den: bigVal{t: d}, unnorm: true}
+				return tuple{z, true}
+			}
+		}
+		if ss, ok := args[1].(*SymStr); ok && len(ss.parts) == 2 && ss.parts[0].kind == "d" && ss.parts[1].kind == "" && strings.HasPrefix(ss.parts[1].s, "/") {
+			// "n/<digits>": symbolic numerator, concrete denominator
+			if d, ok := new(big.Int).SetString(ss.parts[1].s[1:], 10); ok && d.Sign() > 0 {
+				*z = ratVal{num: bigVal{t: ss.parts[0].t}, den: bigConc(d), unnorm: true}
 				return tuple{z, true}
 			}
 		}
